@@ -31,7 +31,7 @@ InitWith(c) ==
     /\ step = [act |-> "init", args |-> <<>>, exp |-> [len |-> 0, peek |-> <<>>]]
 InitState == \E c \in [thr : {4}] : InitWith(c)
 
-Append(n) ==
+DoAppend(n) ==
     /\ Len(data) + n <= MaxLen
     /\ data' = data \o Piece(napp + 1, n)
     /\ napp' = napp + 1
@@ -52,7 +52,7 @@ Advance(k) ==
     /\ UNCHANGED <<cfg, napp>>
     /\ step' = Obs("advance", <<k>>)
 
-Next == \/ \E n \in PieceLens : Append(n)
+Next == \/ \E n \in PieceLens : DoAppend(n)
         \/ \E n \in PeekLens : Peek(n)
         \/ \E k \in 1..MaxLen : Advance(k)
 Spec == InitState /\ [][Next]_<<vars, step>>
